@@ -332,11 +332,11 @@ def decodeReg (l : List (Nat × Nat)) : List (Signal × HookAct) := l.map (fun p
 
 /-- the request-context callbacks (wire events) one HTTP request with outcome `o` produces, in order: those of the
     registered trace hooks, followed — when `RallyAsyncElasticsearch.perform_request` itself handles a failing
-    transport call (`eof ≥ 1`: `except …: self.on_request_end(); raise`) — by one more end for a failed request that is
+    transport call (`eof ≥ 1`: `except …: self.on_request_end(); raise`; `eof = 3`: in a `finally:`, for every request) — by one more end for a failed request that is
     the `last` attempt of the transport (elastic_transport may re-send a failed request before it gives up) -/
 def hookActs (reg : List (Signal × HookAct)) (eof : Nat) (o : Outcome) (last : Bool := true) : List HookAct :=
   (signalsOf o).flatMap (fun sg => (reg.filter (fun p => p.1 == sg && p.2 != .other)).map (·.2)) ++
-  (if eof ≥ 1 && o != .complete && last then [.stop] else [])
+  (if last && (eof == 3 || (eof ≥ 1 && o != .complete)) then [.stop] else [])
 
 /-- is an end recorded at the moment the exchange is over?  `complete`: the last signal (`on_response_chunk_received`,
     body complete) is wired to the end; `failBeforeHeaders`: `on_request_exception` is emitted at the moment of the
@@ -344,8 +344,15 @@ def hookActs (reg : List (Signal × HookAct)) (eof : Nat) (o : Outcome) (last : 
     every exception (`eof = 2`, also cancellation) can record it. -/
 def endsWhenOver (reg : List (Signal × HookAct)) (eof : Nat) : Outcome → Bool
   | .complete => reg.contains (.chunkReceived, .stop)
-  | .failBeforeHeaders => reg.contains (.requestException, .stop) || eof == 2
-  | .failAfterHeaders => eof == 2
+  | .failBeforeHeaders => reg.contains (.requestException, .stop) || eof ≥ 2
+  | .failAfterHeaders => eof ≥ 2
+
+/-- is the end never (re-)recorded after the exchange is over?  A handler that also runs when the transport call
+    succeeds (`eof = 3`, a `finally:`) records the end once more after the response has been received completely —
+    and deserialised: client-side parsing time would count as service time. -/
+def noEndAfterOver (eof : Nat) : Outcome → Bool
+  | .complete => eof != 3
+  | _ => true
 
 /-- one start, first; then at least one end and nothing else: "every wire request that starts also ends" -/
 def startsAndEnds : List HookAct → Bool
